@@ -85,6 +85,34 @@ def gen_batch(rng, tier, nreq=None, kinds=None, twins_ok=True):
         reqs.insert(i, first)
         reqs.insert(rng.randrange(i + 1, len(reqs) + 1), second)
         twins['hop'].append([a['id'], b['id']])
+    # POWER TWINS: 2-3 non-aggregated fixed-mode requests on the same route, mode, spacing and spectrum that differ only in the
+    # optional per-request tx_power (by several dB, one of them so low that the add ROADM cannot reach its target) and/or in the
+    # reference power: each must get the figures of its own launch power, whatever was computed before
+    twins['power'] = []
+    if twins_ok and rng.random() < 0.3:
+        a = gen_request(rng, f'r{len(reqs)}', 'fixed', n, reqs)
+        a['mode'], a['spacing'], a['nm'] = rng.choice(['m100', 'm200']), 50e9, None
+        group = [a]
+        txs = [None, 3.16e-6, 1e-5, 1e-4, 2e-3]
+        pws = [None, 5e-4, 2e-3, 1e-2]
+        rng.shuffle(txs)
+        rng.shuffle(pws)
+        flavour = rng.choice(['tx', 'tx', 'power', 'both'])
+        a['tx_power'], a['power'] = (txs[0] if flavour != 'power' else None), (pws[0] if flavour != 'tx' else a['power'])
+        for j in range(1, rng.choice([2, 2, 3])):
+            b = copy.deepcopy(a)
+            b['id'] = f'r{len(reqs) + j}'
+            if flavour != 'power':
+                b['tx_power'] = txs[j]
+            if flavour != 'tx':
+                b['power'] = pws[j]
+            group.append(b)
+        rng.shuffle(group)
+        i = rng.randrange(len(reqs) + 1)
+        for g in group:
+            reqs.insert(i, g)
+            i = rng.randrange(i + 1, len(reqs) + 1)
+        twins['power'].append([g['id'] for g in group])
     return {'n': n, 'edges': elist, 'lib': lib, 'requests': reqs, 'twins': twins}
 
 
@@ -182,7 +210,7 @@ def req_doc(r):
     dst = r.get('dst_uid') or f'trx N{r["dst"]}'
     return nets_g.request_doc(r['id'], src, dst, r['type'], r['mode'], r['spacing'],
                               bidir=r['bidir'], path_bandwidth=r['bw'], power=r['power'], include=r['include'],
-                              strict=r['strict'], nm=r['nm'], nch=r.get('nch'))
+                              strict=r['strict'], nm=r['nm'], nch=r.get('nch'), tx_power=r.get('tx_power'))
 
 
 def run_planning(ctx, reqs):
